@@ -35,6 +35,26 @@ claim("C04", "static: strict-2PL bracket decided structurally (acquire-at-begin,
       "equivalence of all interleavings to a serial order (needs recorded histories); writes issued outside transactions are excluded by the property itself.",
       "DESIGN.md §2 C04")
 
+claim("C02", "static: write-ahead and sync-before-ack as dominance / must-pass-through rules on SSA (error-polarity aware), flush→fsync→rename ordering, who-may-write and destructive-operation tables, recovery publication loop rule",
+      "every memtable insert is dominated by a successful log append; every success exit of wal.Append* after a record write passes maybeSync()==nil; SyncImmediate reaches syncLocked; Flush precedes Sync with both errors returned and status changes only after the sync; the buffered writer is never replaced unflushed; rotation closes the old log after the swap; SSTable Finish writes, fsyncs, then renames a temp file; loaders open only *.sst; destructive file operations are exactly the classified sites; recovery publishes every recovered memtable and restores the counter.",
+      "the state at arbitrary stop instants, torn writes, directory fsync, repeated crash/recover cycles (need fault injection).",
+      "DESIGN.md §2 C02")
+
+claim("C03", "static: call-graph isolation of the buffer, one-ApplyBatch path rule, lockset analysis of the apply section, size-formula agreement (linear expressions extracted from SSA) between batch pre-validation / buffer provision and writeRecord, value-flow capture rule",
+      "only Commit reaches storage mutation; exactly one ApplyBatch per Commit, never after the lock release; ApplyBatch appends and inserts under one exclusive hold of storage.Manager.mu with no exit in between; AppendBatch has no flush between a batch's records, one sequence number per batch, provisions the buffer with exactly the bytes writeRecord writes and pre-validates with writeRecord's own size formula before the first byte; Buffer.Put/Delete store fresh copies under string(key); Rollback clears before releasing.",
+      "atomicity across a crash (the log has no batch frame: remark only), concurrent-reader interleavings.",
+      "DESIGN.md §2 C03")
+
+claim("C06", "static (narrow): lockset analysis of the single-writer section, error-polarity path rules for 'error means no effect / success means once', stamp provenance, atomic WAL-pointer discipline — linearizability itself is NOT decided",
+      "the log append, memtable insert and lastSeqNum update run under one exclusive hold of storage.Manager.mu (closures analysed in the caller's lock context) and readers hold it shared; no exit between a successful append and the insert and every feasible exit after the insert returns nil; the retry closure re-runs only on ErrWALRotating, which Append* returns before any effect; the memtable stamp is the number the log returned; Manager.wal is read through the atomic accessor on the write path.",
+      "linearizability of histories, real-time order, stale reads across rotation, all schedules — none of this is decided; only the listed structural preconditions are.",
+      "DESIGN.md §2 C06")
+
+claim("C08", "static: every store to the sequence counter checked for monotonicity (old+k or comparison-guarded), provenance of returned/written/stamped numbers, hand-over and recovery path rules",
+      "all stores to WAL.nextSequence are monotone; Append/AppendBatch return the number read before the write, write the record with it and advance past it; a freshly constructed WAL receives the old counter before it is published; recovery restores max+1 on every success path and the maximum is a running maximum; memtable stamps and lastSeqNum are the log-assigned number; lastSeqNum has no other writer.",
+      "the actual numbers after arbitrary histories; interactions of WAL retention with sequence numbers stored in SSTables.",
+      "DESIGN.md §2 C08")
+
 NOT_APPLICABLE_PENDING = "rules for this property are not built yet (work in progress, see DESIGN.md §2); nothing is claimed until the check exists"
 
 def main():
